@@ -155,7 +155,11 @@ def _one(ctx, C, LP, Fc, klass, fam, seedv, tol):
             j = max(range(len(gm)), key=lambda i: abs(gm[i]))
             Gc = [F(float(x)) for x in Xc]
             big = abs(ratio_ := core.pr(ratio)) * abs(gm[j]) ** 2
-            bad = len(gm) != len(Gc) or any(abs(Gc[k] * Gc[j] - ratio_ * gm[k] * gm[j]) > Fraction(1, 10 ** 7) * big for k in range(len(Gc))) or (Gc[j] > 0) != (gm[j] > 0)
+            # the code normalises by its own (FFT-computed) lowest coefficient g0: when that is tiny against the largest one its
+            # relative rounding error (~1e-16 * max|g| / |g0|) scales the whole of G; the comparison allows for exactly that
+            cond = abs(gm[j]) / abs(gm[0]) if gm[0] != 0 else Fraction(10 ** 30)
+            reltol = Fraction(1, 10 ** 7) + Fraction(1, 10 ** 13) * cond
+            bad = len(gm) != len(Gc) or any(abs(Gc[k] * Gc[j] - ratio_ * gm[k] * gm[j]) > reltol * big for k in range(len(Gc))) or (Gc[j] > 0) != (gm[j] > 0)
             if bad:
                 ctx.violation("c04:glue", "G differs from the exact product of the selected / flipped root factors times sqrt(norm/g0) (root selection, seed indexing or normalisation changed)",
                               dict(replay, G=[float(x) for x in Xc], model_g=[core.fl(x) for x in gm], model_ratio=core.fl(ratio_)), found_input=False)
@@ -192,6 +196,10 @@ def run(tier, seed):
     else:
         plan = [(n, 10) for n in range(1, 11)] + [(n, 6) for n in (11, 12)] + [(n, 3) for n in (14, 16, 20, 30, 40, 58)]
         exh, nsample = 10, 40
+    # inputs on which the unchanged tree once failed (known_findings.json, "fixed"): every seed vector, every run
+    for Fc in ([0.8, 0.8, -1.0], [1.0, 0.0, 1.0], [0.6, 0.8], [0.0, 1.0]):
+        for sv in [list(b) for b in itertools.product([0, 1], repeat=len(Fc) - 1)] + [None]:
+            one(ctx, C, LP, Fc, "regression/unit-circle-roots", False, sv, 1e-6)
     for n, reps in plan:
         for _ in range(reps):
             Fc, klass, fam = gen_F(rng, n)
